@@ -174,3 +174,11 @@ Theorem C07_decompose_recompose : forall m tx ty cp sp sx sy ct st,
   meq (recompose tx ty cp sp sx sy ct st) m.
 Proof. exact decompose_recompose. Qed.
 Print Assumptions C07_decompose_recompose.
+
+(** Rect.Transform: the box of the four transformed corners contains the image of every point of the rectangle. *)
+Theorem C07_rect_transform_contains : forall m x0 y0 x1 y1 p,
+  x0 <= fst p <= x1 -> y0 <= snd p <= y1 ->
+  let '(u0, v0, u1, v1) := rect_transform m x0 y0 x1 y1 in
+  u0 <= fst (mdot m p) <= u1 /\ v0 <= snd (mdot m p) <= v1.
+Proof. exact rect_transform_contains. Qed.
+Print Assumptions C07_rect_transform_contains.
